@@ -128,6 +128,22 @@ pub fn run_case(case: &Case) -> Outcome {
     if case.scenario.ends_with("-thread-exit") {
         return run_thread_exit(case);
     }
+    if case.scenario.ends_with("-small-stack") {
+        // a flat document decoded on a thread with a small but legal stack, first thing in the process
+        let kb = case.extra_usize("stack_kb").unwrap_or(256);
+        let doc = case.doc_bytes();
+        let json = case.scenario.starts_with("json");
+        let mut out = Outcome::default();
+        let h = std::thread::Builder::new().stack_size(kb * 1024).spawn(move || if json { exit_decode_json(&doc) } else { exit_decode_zinc(&doc) });
+        let ok = h.map(|h| h.join().is_ok()).unwrap_or(false);
+        out.nontrivial = true;
+        out.probe("fault:small-thread-stack", 1);
+        if !ok {
+            out.violate(format!("C03 panic {}", case.scenario), "the decoding thread panicked".into());
+        }
+        out.fingerprint = mix(&[kb as u64, ok as u64]);
+        return out;
+    }
     let doc = case.doc_bytes();
     let len = doc.len();
     let mut out = Outcome::default();
@@ -591,6 +607,22 @@ impl C03 {
                     }
                 }
             }
+        }
+        // flat documents on a small (64 KiB) thread stack, first thing in a fresh process (lazily built
+        // unit / zone tables are built on that stack; the unchanged tree needs < 32 KiB)
+        for (sink, d) in [
+            ("zinc-small-stack", "5kW"),
+            ("zinc-small-stack", "2021-01-01T00:00:00-05:00 New_York"),
+            ("zinc-small-stack", "{a:1kW b:\"s\" c:@r d:[1,2]}"),
+            ("zinc-small-stack", "ver:\"3.0\"\na,b\n1kW,2021-01-01T00:00:00Z UTC\n"),
+            ("json-small-stack", "{\"_kind\":\"number\",\"val\":1,\"unit\":\"kW\"}"),
+            ("json-small-stack", "{\"_kind\":\"dateTime\",\"val\":\"2021-01-01T00:00:00-05:00\",\"tz\":\"New_York\"}"),
+            ("json-small-stack", "{\"_kind\":\"grid\",\"meta\":{\"ver\":\"3.0\"},\"cols\":[{\"name\":\"a\"}],\"rows\":[{\"a\":1}]}"),
+        ] {
+            let mut c = Case::new("C03", sink, d.as_bytes());
+            c.extra.insert("stack_kb".into(), 64u64.into());
+            c.origin = format!("small stack 64 KiB: {d}");
+            cases.push(c);
         }
         // length ladders: one construct repeated n times, no nesting
         let lengths: Vec<usize> = match self.ctx.tier {
